@@ -96,12 +96,13 @@ def _subst_once(expr: ast.AST, name: str, val: ast.AST) -> ast.AST:
     return S().visit(expr)
 
 
-def inline_sequential(expr: ast.AST, stmt: ast.stmt, cross=(ast.If, ast.With, ast.Try), max_len: int = 4000, keep=()) -> ast.AST:
+def inline_sequential(expr: ast.AST, stmt: ast.stmt, cross=(ast.If, ast.With, ast.Try), max_len: int = 4000, keep=(),
+                      cross_loops: bool = False) -> ast.AST:
     """expr (part of stmt) rewritten over the values that were current when stmt runs: the straight-line code before stmt is walked
     backwards and each `name = value` (or `name: T = value`) whose name the expression reads is substituted, so a chain of re-assignments
     (`s = s.split(':'); s = s[1].strip()`) composes into one expression.  The walk continues in the enclosing block through if/with/try
-    headers, never across a loop or function boundary.  A name that a compound statement on the way may re-bind is left as it is (from
-    there on it is opaque), and so are the names in `keep`."""
+    headers, never across a function boundary and across a loop only with cross_loops (then every name the loop binds stays opaque).  A name
+    that a compound statement on the way may re-bind is left as it is (from there on it is opaque), and so are the names in `keep`."""
     cur_expr = clone(expr)
     cur: Optional[ast.AST] = stmt
     frozen = set(keep)
@@ -136,6 +137,11 @@ def inline_sequential(expr: ast.AST, stmt: ast.stmt, cross=(ast.If, ast.With, as
         up = parent(cur)
         while up is not None and not isinstance(up, ast.stmt):
             up = parent(up)
+        if up is not None and cross_loops and isinstance(up, (ast.For, ast.While)):
+            # loop-invariant names keep the value they had before the loop; everything the loop (re)binds is opaque from here on
+            frozen |= {n.id for n in ast.walk(up) if isinstance(n, ast.Name) and isinstance(n.ctx, (ast.Store, ast.Del))}
+            cur = up
+            continue
         if up is None or not isinstance(up, cross):
             break
         # the header of a with-statement binds its `as` names
